@@ -166,12 +166,18 @@ pub fn run(ctx: &Ctx, rep: &mut Report) {
             rep.sample(case);
         }
         // malformed content: must fail with a parse error naming the depfile path
-        if rng.chance(1, 8) {
-            let bad = match rng.below(3) {
+        if rng.chance(1, 6) {
+            let kind = rng.below(6);
+            let bad = match kind {
                 0 => format!("{}\\x", r.text.trim_end()),
                 1 => "target_without_colon dep\n".to_string(),
-                _ => format!("a: b \\\\ c\n"),
+                2 => format!("a: b \\\\ c\n"),
+                // a backslash between tokens that does not continue the line
+                3 => format!("out: foo \\bar\n"),
+                4 => format!("out: foo \\"),
+                _ => format!("\\out: foo\n"),
             };
+            let must_reject = kind >= 1;
             std::fs::write(&path, bad.as_bytes()).unwrap();
             match guarded(|| facade::read_depfile(&path)) {
                 Ok(Err(e)) => {
@@ -182,8 +188,9 @@ pub fn run(ctx: &Ctx, rep: &mut Report) {
                     }
                 }
                 Ok(Ok(d)) => {
-                    // some of these are accepted forms; only note
-                    let _ = d;
+                    if must_reject {
+                        rep.violation("malformed-depfile-accepted", &format!("{:?} was read as {:?} instead of failing with a parse error", bad, d), case());
+                    }
                     rep.count("malformed_accepted", 1);
                 }
                 Err(m) => rep.violation(&format!("panic:{}", crate::sim::panic_sig(&m)), &m, case()),
@@ -223,6 +230,13 @@ pub fn run_showincludes(ctx: &Ctx, rep: &mut Report) {
                 kept.push(line);
             }
             out.push(b'\n');
+        }
+        // the last line of a command's output need not end in a newline
+        if n > 0 && rng.chance(1, 3) {
+            out.pop();
+            if out.last() == Some(&b'\r') && rng.chance(1, 2) {
+                out.pop();
+            }
         }
         rep.evaluations += 1;
         let o2 = out.clone();
